@@ -83,6 +83,13 @@ def main():
                         else:
                             cm = parallel_config(**kw)
                         cm.__enter__(); stack.append(cm)
+                    elif cmd[0] == "fail_enter":
+                        kw = kwargs_of(cmd[1]); kw["backend"] = "no_such_backend"
+                        try:
+                            (parallel_backend(kw["backend"], n_jobs=kw.get("n_jobs", 2)) if cmd[2] % 3 == 0 else parallel_config(**kw))
+                            res = {"exc": "a context naming an unknown backend was constructed"}
+                        except ValueError:
+                            pass
                     elif cmd[0] == "exit":
                         cm = stack.pop()
                         if cmd[1] == "exception":
@@ -99,7 +106,7 @@ def main():
         for t in ths.values(): t.start()
         for step, e in enumerate(prog):
             a = e["act"]
-            qs[a["t"]].put(("enter", a["f"], step) if a["op"] == "enter" else ("exit", a["how"]))
+            qs[a["t"]].put(("enter", a["f"], step) if a["op"] == "enter" else ("fail_enter", a["f"], step) if a["op"] == "fail_enter" else ("exit", a["how"]))
             r = done.get()
             if isinstance(r, dict): problems.append({"step": step, "kind": "action_raised", "detail": r["exc"]}); break
             for t in (1, 2):
